@@ -77,6 +77,8 @@ class iter_relocations:
 
 @contract("elftools/elf/relocation.py", "RelocationTable.__init__", props=["C08"])
 class reltab_init:
+    inline = True           # call sites (RelocationSection.__init__) execute the real body; the contract is checked as well
+    also_check = True
     params = dict(self=Obj('RelocationTable'), elffile=ELFFileT(), offset=U64, size=U64, is_rela=Bool)
     requires = ["elffile.structs.elfclass == elffile.elfclass"]
     ensures = ["self._offset == offset", "self._size == size", "self._is_rela == is_rela",
